@@ -99,7 +99,7 @@ def check_sdc(kind, tier, seed, part, nparts):
 
     obs, skipped = [], []
     cfgs = list(sdc_configs(tier))[part::nparts]
-    quickI = ['IE', 'LU', 'MIN-SR-S', 'MIN-SR-NS', 'MIN-SR-FLEX', 'Qpar', 'TRAP', 'PIC']
+    quickI = ['IE', 'LU', 'MIN-SR-S', 'MIN-SR-NS', 'MIN-SR-FLEX', 'Qpar', 'TRAP', 'PIC', 'LDU']
     for nt, qt, M in cfgs:
         if M < 2 and qt in ('LOBATTO',):
             continue
